@@ -11,6 +11,12 @@ CHECKS = {
  "C01": dict(engine="isa", category="model_checking", technique="exhaustive enumeration of (program, input) transitions of a reference eBPF machine over boundary alphabets, every one replayed on the interpreter and compared on the full observable state",
    text=ISA_TEXT + "Every model transition is executed on the real interpreter (instruction budget hook) and compared: returned value, Ok/Err class, packet and metadata bytes.",
    design_ref="DESIGN.md section 4 C01"),
+ "C02": dict(engine="mem", category="model_checking", technique="exhaustive enumeration of access form x effective address (every offset within 9 bytes of both ends of every region, null, wrap-around, 2^63 away) x base+offset decomposition x region layout, each run on the interpreter against a containment predicate, with guard pages and canaries around every buffer",
+   text="One transition (one access) per case, complete product of the alphabets. Expected: Ok iff all bytes lie inside packet, metadata buffer, stack or one registered range; on Ok the loaded value / stored bytes must be exact and nothing else may change; on Err every byte of every buffer and all canaries must be unchanged; never a panic; a fault kills the worker and is attributed to the case.",
+   design_ref="DESIGN.md section 4 C02"),
+ "C11": dict(engine="mem", category="model_checking", technique="same access x address x layout enumeration as C02 (no allowed ranges), each case compiled with Cranelift and executed in a forked child; observation = wait status + shared-memory arena",
+   text="In-bounds: the child returns and the value/bytes are those of the access. Out of bounds: the child must die with SIGILL (the trap) and the arena, inspected by the parent through the shared mapping, must be byte-for-byte unchanged; SIGSEGV/SIGBUS or a changed canary means the access was attempted.",
+   design_ref="DESIGN.md section 4 C11"),
  "C03": dict(engine="isa", category="model_checking", technique="same enumeration as C01; each program is JIT-compiled and run in a forked child; oracle = the interpreter wherever the reference machine says the result is defined",
    text=ISA_TEXT + "Each program is JIT-compiled once per group and executed for all inputs in a forked child process; result and defined bytes must equal the interpreter's; guard pages and canaries catch stray accesses; a crash is a violation.",
    design_ref="DESIGN.md section 4 C03"),
@@ -44,6 +50,7 @@ CHECKS = {
 }
 
 ENGINES = {
+ "mem": ("mc/src/memeng.rs", "kind A: access x address x layout explorer with guard-page arena and fork isolation"),
  "bytes": ("mc/src/byteseng.rs", "kind A: small-scope byte-string explorer with reference verifier predicate (mc/src/refverif.rs)"),
  "isa": ("mc/src/isaeng.rs", "kind A: transition-conformance of a reference machine (mc/src/refmodel.rs): bounded exhaustive enumeration of (pre-state x instruction) transitions, each replayed on interpreter / JIT / Cranelift"),
  "text": ("mc/src/text.rs", "kind D: exhaustive input-space enumeration of pure functions (assembler, disassembler, encoders, builder) against independent models in mc/src/asmref.rs and mc/src/isa.rs"),
